@@ -331,7 +331,8 @@ class RegexConstraint(Constraint):
         """Compile regex pattern once."""
         try:
             self._compiled = re.compile(self.pattern)
-        except re.error as e:
+        except (re.error, OverflowError, RecursionError) as e:
+            # re.compile also raises OverflowError (huge repeat counts) and RecursionError (deep nesting)
             raise ValueError(f"Invalid regex pattern '{self.pattern}': {e}") from e
 
     def evaluate(self, value: Any, path: str = "") -> ValidationResult:
